@@ -350,3 +350,203 @@ Proof.
   - inv H. apply S_idle. lia.
   - inv H. apply S_sign.
 Qed.
+
+(* ------------------------------------------------------------------ *)
+(* traces                                                               *)
+(* ------------------------------------------------------------------ *)
+(* traces are newest-first *)
+Definition ev_lt (b : N) (e : event) : Prop :=
+  match e with
+  | EIssued _ ch => ch < b
+  | ESigned _ m => m < b
+  | EAccepted _ _ ch => ch < b
+  | _ => True
+  end.
+
+(* what must hold of the events that happened before [e] *)
+Definition ev_ok (e : event) (l : list event) : Prop :=
+  match e with
+  | EIssued c ch => Forall (ev_lt ch) l
+  | EAccepted c K ch =>
+      In (ESigned K ch) l /\ In (EIssued c ch) l /\ forall c' k', ~ In (EAccepted c' k' ch) l
+  | _ => True
+  end.
+Fixpoint trace_ok (tr : list event) : Prop :=
+  match tr with [] => True | e :: l => ev_ok e l /\ trace_ok l end.
+
+(* the acceptance that established the current session of connection c:
+   the most recent event about c, if it is an acceptance *)
+Fixpoint session (c : N) (tr : list event) : option (N * N) :=
+  match tr with
+  | [] => None
+  | EAccepted c' k ch :: l => if c' =? c then Some (k, ch) else session c l
+  | EReset c' :: l => if c' =? c then None else session c l
+  | ERemoved c' :: l => if c' =? c then None else session c l
+  | _ :: l => session c l
+  end.
+
+Definition touches (c : N) (e : event) : bool :=
+  match e with
+  | EAccepted c' _ _ | EReset c' | ERemoved c' => c' =? c
+  | _ => false
+  end.
+
+Definition is_accept_of (ch : N) (e : event) : bool :=
+  match e with EAccepted _ _ ch' => ch' =? ch | _ => false end.
+Definition accepted_count (ch : N) (tr : list event) : nat := length (filter (is_accept_of ch) tr).
+
+(* e1 happened before e2 *)
+Definition before (e1 e2 : event) (tr : list event) : Prop :=
+  exists l1 l2 l3, tr = l3 ++ e2 :: l2 ++ e1 :: l1.
+
+Lemma ev_lt_mono b b' e : b <= b' -> ev_lt b e -> ev_lt b' e.
+Proof. destruct e; cbn [ev_lt]; intros; try exact I; lia. Qed.
+
+Lemma Forall_ev_lt_mono b b' l : b <= b' -> Forall (ev_lt b) l -> Forall (ev_lt b') l.
+Proof. intros Hle H. eapply Forall_impl; [|exact H]. intros e. apply ev_lt_mono; exact Hle. Qed.
+
+Lemma session_skip c e l : touches c e = false -> session c (e :: l) = session c l.
+Proof. destruct e; cbn [touches session]; intros H; try reflexivity; now rewrite H. Qed.
+
+Lemma session_app_skip c ev l :
+  (forall e, In e ev -> touches c e = false) -> session c (ev ++ l) = session c l.
+Proof.
+  induction ev as [|e t IH]; intros H; [reflexivity|].
+  cbn [app]. rewrite session_skip by (apply H; left; reflexivity).
+  apply IH. intros e' Hin. apply H. right; exact Hin.
+Qed.
+
+Lemma session_in c tr K ch : session c tr = Some (K, ch) -> In (EAccepted c K ch) tr.
+Proof.
+  induction tr as [|e l IH]; cbn [session]; [discriminate|].
+  destruct e as [c' ch'|k m|c' k ch'|c'|c']; try (intros H; right; apply IH; exact H).
+  - destruct (N.eqb_spec c' c); intros H; [inv H; left; reflexivity|right; apply IH; exact H].
+  - destruct (c' =? c); intros H; [discriminate|right; apply IH; exact H].
+  - destruct (c' =? c); intros H; [discriminate|right; apply IH; exact H].
+Qed.
+
+Lemma trace_ok_app l1 l2 : trace_ok (l1 ++ l2) -> trace_ok l2.
+Proof. induction l1 as [|e t IH]; cbn [app trace_ok]; [auto|]. intros [_ H]; auto. Qed.
+
+Lemma trace_ok_split l1 e l2 : trace_ok (l1 ++ e :: l2) -> ev_ok e l2 /\ trace_ok l2.
+Proof. intros H. apply trace_ok_app in H. exact H. Qed.
+
+Lemma issued_unique tr c c' ch :
+  trace_ok tr -> In (EIssued c ch) tr -> In (EIssued c' ch) tr -> c = c'.
+Proof.
+  induction tr as [|e l IH]; [intros _ []|]. cbn [trace_ok]; intros [Hok Hl] H1 H2.
+  assert (Hfresh : forall c0 c1, e = EIssued c0 ch -> In (EIssued c1 ch) l -> False).
+  { intros c0 c1 -> Hin. cbn [ev_ok] in Hok. rewrite Forall_forall in Hok.
+    specialize (Hok _ Hin). cbn [ev_lt] in Hok. lia. }
+  destruct H1 as [H1|H1], H2 as [H2|H2].
+  - congruence.
+  - exfalso. eapply Hfresh; eauto.
+  - exfalso. eapply Hfresh; eauto.
+  - apply IH; assumption.
+Qed.
+
+(* a prefix of neutral events (no issue, no acceptance) keeps a trace well-formed *)
+Definition neutral (e : event) : Prop :=
+  match e with EIssued _ _ | EAccepted _ _ _ => False | _ => True end.
+Lemma trace_ok_neutral ev tr : (forall e, In e ev -> neutral e) -> trace_ok tr -> trace_ok (ev ++ tr).
+Proof.
+  induction ev as [|e t IH]; intros Hn Ht; [exact Ht|]. cbn [app trace_ok]. split.
+  - specialize (Hn e (or_introl eq_refl)). destruct e; cbn in Hn |- *; try exact I; contradiction.
+  - apply IH; [|exact Ht]. intros e' Hin. apply Hn. right; exact Hin.
+Qed.
+
+(* ------------------------------------------------------------------ *)
+(* the invariant                                                        *)
+(* ------------------------------------------------------------------ *)
+Record Inv (tr : list event) (s : state) : Prop := mkInv {
+  i_sorted : ksorted (peers s);
+  i_vals   : Forall (ev_lt (next s)) tr;
+  i_signed : forall k m, In (k, m) (signed s) -> In (ESigned k m) tr;
+  i_chal   : forall c p ch, aget c (peers s) = Some p -> p_chal p = Some ch ->
+               In (EIssued c ch) tr /\ forall c' k', ~ In (EAccepted c' k' ch) tr;
+  i_conn   : forall c p, aget c (peers s) = Some p -> p_status p = Connected ->
+               exists K ch, p_pk p = Some K /\ session c tr = Some (K, ch);
+  i_trace  : trace_ok tr;
+}.
+
+Lemma static_peers_in n kv : In kv (static_peers n) -> 1 <= fst kv <= N.of_nat n /\ snd kv = static_peer.
+Proof.
+  induction n as [|n IH]; cbn [static_peers]; [intros []|].
+  intros H. apply in_app_or in H as [H|[<-|[]]].
+  - destruct (IH H) as [IH1 IH2]. split; [lia|exact IH2].
+  - cbn [fst snd]. split; [lia|reflexivity].
+Qed.
+
+Lemma static_peers_sorted n : ksorted (static_peers n).
+Proof.
+  induction n as [|n IH]; cbn [static_peers]; [exact I|].
+  apply ksorted_app_one; [exact IH|]. intros kv Hin. apply static_peers_in in Hin. lia.
+Qed.
+
+Lemma Inv_init n f0 : Inv [] (init n f0).
+Proof.
+  constructor; cbn [init peers next signed].
+  - apply static_peers_sorted.
+  - constructor.
+  - intros k m [].
+  - intros c p ch Hp Hc. apply aget_in in Hp. apply static_peers_in in Hp as [_ Hp].
+    cbn [snd] in Hp. subst p. discriminate.
+  - intros c p Hp Hc. apply aget_in in Hp. apply static_peers_in in Hp as [_ Hp].
+    cbn [snd] in Hp. subst p. discriminate.
+  - exact I.
+Qed.
+
+(* lookups after an update of one entry *)
+Lemma aget_aset_cases {V} c c0 (v : V) m x :
+  aget c0 (aset c v m) = Some x -> (c0 = c /\ x = v) \/ (c0 <> c /\ aget c0 m = Some x).
+Proof.
+  destruct (N.eq_dec c0 c) as [->|Hne].
+  - rewrite aget_aset_eq. intros E; inv E. left; auto.
+  - rewrite aget_aset_neq by exact Hne. right; auto.
+Qed.
+
+Lemma not_in_app_accept c' k' ch ev tr :
+  (forall e, In e ev -> is_accept_of ch e = false) ->
+  ~ In (EAccepted c' k' ch) tr -> ~ In (EAccepted c' k' ch) (ev ++ tr).
+Proof.
+  intros Hev Htr Hin. apply in_app_or in Hin as [Hin|Hin]; [|contradiction].
+  specialize (Hev _ Hin). cbn [is_accept_of] in Hev. rewrite N.eqb_refl in Hev. discriminate.
+Qed.
+
+Ltac solve_in := repeat (first [left; reflexivity | right]); assumption.
+
+(* generic preservation for steps that neither issue nor accept and leave every
+   entry's (challenge, status, key) alone or reset it *)
+Definition weaker (c : N) (p p' : peer) : Prop :=
+  (p_chal p' = p_chal p \/ p_chal p' = None) /\
+  (p_status p' = Connected -> p_status p = Connected) /\ p_pk p' = p_pk p.
+
+Lemma Inv_frame tr s ps' ad' nx' nw' ev :
+  Inv tr s ->
+  ksorted ps' -> next s <= nx' ->
+  (forall e, In e ev -> neutral e /\ ev_lt nx' e) ->
+  (forall c p', aget c ps' = Some p' ->
+     (exists p, aget c (peers s) = Some p /\ weaker c p p' /\
+                (p_status p' = Connected -> forall e, In e ev -> touches c e = false))
+     \/ (p_chal p' = None /\ p_status p' <> Connected)) ->
+  Inv (ev ++ tr) (mkS ps' ad' nx' nw' (signed s)).
+Proof.
+  intros [Hs Hv Hsg Hch Hcn Htr] Hs' Hnx Hev Hp.
+  assert (Hnoacc : forall ch e, In e ev -> is_accept_of ch e = false).
+  { intros ch e Hin. destruct (Hev _ Hin) as [Hn _]. destruct e; cbn in Hn |- *; try reflexivity; contradiction. }
+  constructor; cbn [peers next signed].
+  - exact Hs'.
+  - apply Forall_app. split.
+    + apply Forall_forall. intros e Hin. apply Hev; exact Hin.
+    + eapply Forall_ev_lt_mono; eauto.
+  - intros k m Hin. apply in_or_app. right. apply Hsg; exact Hin.
+  - intros c p' ch Hget Hc. destruct (Hp _ _ Hget) as [[p [Hg [[Hw _] _]]]|[Hnone _]]; [|congruence].
+    destruct Hw as [Hw|Hw]; [|congruence].
+    rewrite Hw in Hc. destruct (Hch _ _ _ Hg Hc) as [Hi Hna]. split.
+    + apply in_or_app; right; exact Hi.
+    + intros c' k'. apply not_in_app_accept; [intros e; apply Hnoacc|apply Hna].
+  - intros c p' Hget Hc. destruct (Hp _ _ Hget) as [[p [Hg [[_ [Hst Hpk]] Hto]]]|[_ Hn]]; [|contradiction].
+    destruct (Hcn _ _ Hg (Hst Hc)) as [K [ch [HK Hses]]]. exists K, ch. split; [congruence|].
+    rewrite session_app_skip; [exact Hses|]. apply Hto; exact Hc.
+  - apply trace_ok_neutral; [|exact Htr]. intros e Hin. apply Hev; exact Hin.
+Qed.
